@@ -34,12 +34,14 @@ type Config struct {
 	Params        map[string]int64 // harness parameters (vx.Param)
 	StopAtFirst   bool
 	MaxViolations int
+	Witnesses     int
+	WitnessEvery  int64
 }
 
 func defaultConfig() Config {
 	return Config{MaxInstr: 3_000_000, MaxDecisions: 20000, MaxDepth: 400, MaxAlloc: 1 << 20, MaxFork: 64, MaxSymIndex: 512,
 		MaxPaths: 5_000_000, MaxGoroutines: 8, MaxSchedSteps: 2000, Preempt: 2, Race: true, MapOrder: "two", Workers: 16,
-		QueryTimeoutMs: 20000, Params: map[string]int64{}, MaxViolations: 50}
+		QueryTimeoutMs: 20000, Params: map[string]int64{}, MaxViolations: 50, Witnesses: 12, WitnessEvery: 37}
 }
 
 type Explorer struct {
@@ -85,6 +87,7 @@ type Explorer struct {
 	totalQueries, qSat, qUnsat, qUnknown, fallbacks int64
 	solverDur time.Duration
 	initS float64
+	witnessTick int64
 	valDur time.Duration
 }
 
@@ -93,6 +96,8 @@ type Witness struct {
 	Chooses []int64       `json:"chooses"`
 	Obs     []string      `json:"obs"`
 	Decs    string        `json:"decisions"`
+	UF      []UFEntry     `json:"uf,omitempty"`
+	Params  map[string]int64 `json:"params,omitempty"`
 }
 
 type Worker struct {
@@ -365,6 +370,9 @@ func (w *Worker) execute(prefix []Dec) (r *Run, out runOutcome) {
 		}
 	}()
 	r.callSSA(nil, w.ex.harnessFn, nil, nil)
+	if w.ex.wantWitness() && len(r.viols) == 0 && (r.sched == nil || len(r.sched.gs) == 1) {
+		r.makeWitness()
+	}
 	// main returned: all goroutines must be done (leftovers are killed)
 	return
 }
@@ -444,7 +452,18 @@ func (ex *Explorer) account(w *Worker, r *Run, out runOutcome) {
 	}
 }
 
-func (c Config) witnessCap() int { return 40 }
+func (c Config) witnessCap() int { return c.Witnesses }
+
+func (ex *Explorer) wantWitness() bool {
+	if ex.cfg.Witnesses == 0 {
+		return false
+	}
+	ex.mu.Lock()
+	defer ex.mu.Unlock()
+	ex.witnessTick++
+	// sample: the first few paths and then every k-th
+	return len(ex.witnesses) < ex.cfg.Witnesses && (ex.witnessTick <= 5 || ex.witnessTick%ex.cfg.WitnessEvery == 0)
+}
 
 func decsString(t []Dec, max int) string {
 	var sb strings.Builder
